@@ -10,23 +10,23 @@ CLAIMED = {
  "C13": ("Bounded symbolic execution of the real output strategies (atomicfile.WriteFile / WriteInPlace+Commit, binpatch rewrite) over an in-memory model of the os package in which the crash index (process killed before FS step k) and per-call OS failures are symbolic choices: at every crash point and after every handled error the destination holds exactly OLD or exactly NEW, never disappears if it existed, the input is unchanged, and no *.tmp sibling remains after a return.",
          "Trusted: the engine's os model (rename atomic and replacing, unlink/close semantics, a failing unlink is not injected), z3. Bounds: payload <=3 bytes, <=2 patches, <=12 FS steps. Durability (fsync/power loss) is outside: the property is about process kill.",
          "DESIGN.md §4 C13"),
- "C11": ("Each byte-level parser entry point in reach (cabfile.Digest, authenticode.DigestPE, zipslicer.ReadWithDirectory/Read, binpatch.Load) is symbolically executed on an arbitrary byte buffer of bounded length; the implicit assertions no panic / no allocation above 4 MiB+16*len sized by input / loop bound proportional to input are decided by z3 on every feasible path.",
-         "Trusted: engine + intrinsics, z3. Bounds: the input lengths and fixed layout fields listed per harness (bound_cuts in evidence list every symbolic length cut). Text, XML, ASN.1, PGP and tar/ar parsers are outside the claim.",
+ "C11": ("Each byte-level parser entry point in reach - cabfile.Digest, authenticode.DigestPE (short prefixes, full header, 1-2 sections, odd optional-header sizes), the PE certificate-table walk, zipslicer.ReadWithDirectory / Read, binpatch.Load, csblob.parseSuper / parseCodeDirectory, dmg.Open, signxap.removeSignature - is symbolically executed on an arbitrary byte buffer of bounded length; no panic, no allocation above 4 MiB+16*len sized by input, loops bounded, decided by z3 on every feasible path.",
+         "Trusted: engine + intrinsics, z3. Bounds: input lengths and the layout fields fixed per harness (documented there; every symbolic length cut is listed in evidence bound_cuts). Text, XML, ASN.1, PGP, tar/ar parsers, reflection-based APK decoder: outside.",
          "DESIGN.md §4 C11"),
- "C09": ("Block-buffered stream consumers are executed on symbolic data under every split of the stream into writes (split points symbolic): the PE checksum is independent of the write split for every field position (bounded length).",
-         "Trusted: engine, z3. Bounds: <=10 (16 thorough) byte streams, 3 writes. Codecs, tar framing, HTTP retry are outside.",
+ "C09": ("Stream consumers under every split of the stream into reads/writes (split points and read sizes symbolic): PE checksum independent of write split for every field position; PE section hasher (image digest and page-hash table) independent of short reads (page size scaled through the hasher's own buffers); APK merkle hasher chunk digests independent of write split and equal to the spec chunking (block constant scaled via overlay); compound-file stream reader delivers the chain's bytes in order for every sequence of destination sizes.",
+         "Trusted: engine, hash injectivity, z3. Bounds: streams of 2-3 blocks, 3 writes / arbitrary read sizes. Codecs (gzip/snappy), tar framing, HTTP retry/failover are outside.",
          "DESIGN.md §4 C09"),
- "C05": ("Partial: relic's digest kernels are compared with reference computations written from the specification inside the harness (independent structure), on symbolic inputs: PE checksum whole-buffer reference for short files plus the one-word inductive step from an arbitrary reachable state (covers files of any length).",
-         "Trusted: the reference in the harness (read from the PE/COFF specification), engine, z3. External verifiers (jarsigner, openssl, gpg, dpkg) cannot be executed symbolically: outside.",
+ "C05": ("Partial: relic's digest kernels against reference computations written from the specifications inside the harness: PE checksum (whole-buffer reference for short files + one-word inductive step from an arbitrary reachable state: any length), Authenticode image hash (file minus CheckSum, minus directory entry 4, minus certificate table, zero padded to 8), APK v2 chunk digests (0xa5 || len32 || chunk per block, block constant scaled 1 MiB -> 4 through a source overlay).",
+         "Trusted: the references (read from the PE/COFF, Authenticode and APK v2 documents), engine, z3, hash injectivity. External verifiers (jarsigner, openssl, gpg, dpkg) cannot be executed symbolically: outside.",
          "DESIGN.md §4 C05"),
- "C18": ("Partial: the directory red-black tree insertion is executed from empty for every arrival order and relative order of k symbolic keys; BST order, root black, no red-red edge and equal black height are asserted on every path.",
-         "Trusted: engine, z3. Bounds: k<=5 (7 thorough) keys. Sector allocation, whole-file validity at real sector sizes: not yet covered in this revision.",
+ "C18": ("Partial: directory red-black insertion from empty for every arrival / relative order of k symbolic keys (BST order, root black, no red-red, equal black height); sector allocation as one step from an arbitrary table state (returned sectors distinct, free before, table grows by whole FREE blocks, in-use entries untouched); stream insertion (chain of ceil(len/sector) free sectors linked in order and terminated by ENDOFCHAIN, content stored in chain order, no in-use sector byte or table entry changes, sectors not re-issued); chain release.",
+         "Trusted: engine os model, z3. Bounds: k<=5 (7) keys, tables of <=8 entries, scaled 16-byte sectors. Whole-file validity at real sector sizes, DIFAT growth, tar-vs-direct MSI digest: not covered.",
          "DESIGN.md §4 C18"),
- "C04": ("The real config.GetKey, authmodel.Middleware + CertificateInfo.Allowed, server.serveSign and server.serveListKeys are executed over every configuration in the bound (keys present/absent, aliases to any name incl. self, other aliases and missing names, token present/absent, role sets, hide flags) x every caller role set x every requested name: a token is touched only if the resolved entry (one alias hop) shares a role with the caller, every other request is refused with an error before any token call, GetKey never panics, and /list_keys returns exactly the visible names the caller could sign with.",
-         "Trusted: engine, opaque logging (zerolog), json.Marshal/Unmarshal modelled as identity on the carried value (real json natively), z3. Bounds: 2 keys / 1 role (quick), 3 keys / 2 roles (thorough). TLS, x509 verification, OPA, proxy headers: not yet covered in this revision.",
+ "C04": ("The real config.GetKey, authmodel.Middleware + CertificateInfo.Allowed, server.serveSign / serveGetKey / serveListKeys and realip.trustedClient / Middleware / PeerCertificates are executed over every configuration in the bound (keys present/absent, aliases to any name incl. self, other aliases, missing names; token present/absent; role sets; hide flags) x caller role sets x requested names, and over every combination of peer address and X-Forwarded-For / Ssl-Client-Cert headers in the bound: a token is touched (signing or certificate disclosure) only for a caller sharing a role with the resolved entry (one alias hop), everything else is refused before any token call, GetKey never panics, /list_keys returns exactly the visible signable names, and a peer outside the trusted-proxy list is recorded as itself with its own TLS certificates whatever headers it sends.",
+         "Trusted: engine, opaque logging, json identity model (real json natively), z3. Bounds: 2 keys / 1 role (quick), 3 keys or 2 roles (thorough); hop strings from a fixed set of addresses. TLS handshake, x509 verification in ClientConfig.Match, OPA policy authenticator: outside.",
          "DESIGN.md §4 C04"),
- "C17": ("Differential harnesses against a reference written from APPNOTE.TXT: data-descriptor width inference for every (crc, csize, usize) x {16,24}-byte descriptor followed by arbitrary bytes; central-directory header build -> parse round trip and idempotence over fully symbolic fields (both sides of the 2^32-1 thresholds).",
-         "Trusted: the APPNOTE reference in the harness, engine, z3. Known finding listed in known_findings.jsonl (24-byte descriptor with zero uncompressed size). Deflate, CRC values, real Go/Python readers as programs are outside.",
+ "C17": ("Differential harnesses against references written from APPNOTE.TXT: data-descriptor width for every (crc, csize, usize) x {16,24}-byte descriptor followed by arbitrary bytes; central-directory header build -> parse round trip and idempotence over fully symbolic fields (both sides of 2^32-1); ZIP64 extended-information record with every combination of escaped fields; re-emission of an unmodified directory equals the original bytes; end-of-directory location with an archive comment.",
+         "Trusted: the APPNOTE references in the harnesses, engine, z3. Known findings listed in known_findings.jsonl (24-byte descriptor with zero uncompressed size; archive comment). Deflate, CRC values, real Go/Python readers as programs are outside.",
          "DESIGN.md §4 C17"),
  "C20": ("One inductive step of the real healthCheck from an arbitrary state satisfying status = max(0, N - consecutive failures) (N any threshold >= 1, <=3 tokens with arbitrary ping outcomes) re-establishes the invariant, which covers histories of any length; Healthy() is compared with its specification over symbolic (disabled, elapsed, interval, status) on a frozen symbolic clock; healthCheckLoop is executed with the Closed channel closed and a bounded number of timer events and must return (loop-bound = hang finding).",
          "Trusted: engine (select = symbolic choice among ready cases; timers fire at most a harness-given number of times; frozen clock), opaque logging/metrics, z3. Wall-clock timers, prometheus gauges, log text are outside.",
@@ -34,16 +34,16 @@ CLAIMED = {
  "C15": ("The real worker.doRetry + doOnce run against a harness http.RoundTripper whose per-attempt outcome (success, retryable / key-usage / permanent token error, HTTP 503 / 400, unexpected EOF, connection refused, timeout, malformed reply) and the caller's cancellation point are symbolic choices: attempts <= configured retries, success iff the last executed attempt succeeded, retry only after a transient failure, classification (KeyUsageError, ResponseError, sentinel errors) intact, transient failures retried to the limit. tokencache.Cache.GetKey from an arbitrary cache state: a pinned key id is never served from a cached key with another id, never writes the cache, expired entries are not served, mutex released.",
          "Trusted: engine (context model: a timeout eventually fires, no goroutines; http.Client.Do = Transport.RoundTrip with url.Error wrapping; json identity), z3. Bounds: retries <=3 (4 thorough; 0 = default 5). The worker-side handler (cookie check) lives in a cgo package (miekg/pkcs11) and is not loaded; real HTTP / process supervision are outside.",
          "DESIGN.md §4 C15"),
- "C01": ("Partial (structural round trip, CAB): for every well-formed single-part cabinet in the bound (unsigned or already signed, all non-layout bytes symbolic) and every signature blob, the real Digest -> MakePatch -> (patch applied per C12) -> Digest pipeline succeeds, the verifier-side parse finds exactly the embedded blob and recomputes the digest that was signed.",
-         "Trusted: engine, hash modelled injective, patch application per C12. The CMS blob itself (crypto, ASN.1), every other format, key types and client/server transport are outside this revision's claim.",
+ "C01": ("Partial (structural round trip, PE and CAB): for every well-formed PE32 image (one section, optional header gap, overlay, optionally already signed) and cabinet (unsigned, signed, or with a pre-reserved signature area) in the bound, with all non-layout bytes symbolic, and every signature blob: Digest -> MakePatch -> patch applied (C12 semantics) -> Digest succeeds; the verifier-side view (findSignatures / certificate-table walk up to the CMS check, cabinet parse) finds exactly the embedded blob and recomputes the digest that was signed.",
+         "Trusted: engine, hash modelled injective, patch application per C12; the CMS check is a stub in the verifier-walk harness (no native replay there). The CMS blob itself (crypto, ASN.1), the other formats, key types and client/server transport are outside this revision's claim.",
          "DESIGN.md §4 C01"),
- "C02": ("Partial (CAB): two-copy query - a well-formed cabinet x and a copy y differing in one byte at any position outside the format's unsigned fields: y is rejected or its content digest differs (hash injective), so the constant-time comparison with the signed digest fails; the unsigned fields (Reserved1, CabNumber) are shown to be exactly the undigested ones.",
-         "Trusted: engine, hash injectivity. CMS-level mutations (ASN.1), chain validation, other verifiers are outside.",
+ "C02": ("Partial (PE, CAB, APK data flow): two-copy queries - a well-formed signed-shaped PE / cabinet and a copy differing in one byte of the protected set (sampled positions in every protected region, incl. the gap between headers and first section): the copy is rejected or its digest differs (hash injective); bytes appended after a PE certificate table are rejected; the cabinet's unsigned fields are exactly the undigested ones. APK: the real verify() is shown NOT to hand the archive to the v2 signer check (content digests never compared) - recorded known finding.",
+         "Trusted: engine, hash injectivity; APK harness stubs parsing and crypto (decides data flow only). CMS-level mutations (ASN.1), chain validation, XML/PGP verifiers are outside.",
          "DESIGN.md §4 C02"),
- "C03": ("Partial (CAB + patch semantics): signing changes only signature metadata - folder data bytes are identical, folder offsets move by exactly the inserted header bytes, other header fields are carried over, only the padded signature is appended; byte-exact patch application itself is C12.",
-         "Trusted: engine; the format model in the harness (MS cabinet header layout). Independent third-party readers as programs and other formats are outside.",
+ "C03": ("Partial (PE, CAB, ZIP re-index + patch semantics): signing changes only signature metadata - PE headers, section bodies, overlay and existing alignment bytes are byte-identical, only the directory entry and the (8-aligned) certificate table change; cabinet folder data is identical and folder offsets move by exactly the header growth/shrink (+24 / 0 / -padding); re-indexing a ZIP keeps every kept member's bytes at the offset the new directory records, and archives with leading data or gaps are refused. Byte-exact patch application itself is C12.",
+         "Trusted: engine; the format models in the harnesses (PE/COFF, MS cabinet, APPNOTE). Independent third-party readers as programs, CFB payload (C18 covers allocation), text formats are outside.",
          "DESIGN.md §4 C03"),
- "C08": ("Partial (CAB): the content digest is identical for an unsigned cabinet, its signed form and its re-signed form (sign^2 with arbitrary blobs), the second signature replaces the first (no stacking, old bytes removed), payload equals the original.",
+ "C08": ("Partial (PE, CAB): the content digest is identical for an unsigned file, its signed form and its re-signed form (sign^2 with arbitrary blobs of differing padded sizes), the second signature replaces the first (table / signature bytes and sizes in the headers), payload equals the original; for PE the directory entry follows the table, for CAB all three layouts (unsigned, signed, pre-reserved).",
          "Trusted: engine, hash injectivity. n-fold histories beyond 2 follow by induction from digest invariance + replacement (argued, not run). Other formats outside this revision.",
          "DESIGN.md §4 C08"),
  "C06": ("The real server.serveSign -> signinit.Init -> mod.Sign -> signinit.PublishAudit -> audit.AppendTo -> rw.Write chain runs with a fake token/signer and the audit file on the engine's os model with symbolic OS failures: a signature body is written only after exactly one record was appended as one newline-terminated line (existing records kept) naming key, signature type, digest, file name and client address; if the sink or the signer fails no body is written.",
@@ -55,8 +55,8 @@ CLAIMED = {
  "C19": ("Narrow partial: the r||s encoding lib/xmldsig emits for ECDSA (EcdsaSignature.PackFixed) is 2*ceil(bits/8) bytes for every r, s that fit the curve size, big-endian r then s, and UnpackEcdsaSignature inverts it.",
          "Trusted: big.Int as 64-bit stand-in (curve sizes 1..8 bytes stand for 32/48/66), engine, z3. Canonicalisation proper (etree DOM, W3C exc-c14n) is outside: external reference program, string/DOM code.",
          "DESIGN.md §4 C19"),
- "C10": ("Partial (acceptance conjuncts): the real TimeStampReq.ParseResponse / SanityCheckToken / unpackTokenInfo run with the ASN.1 decoder, the CMS signature check and the content extraction replaced by nondeterministic stubs (arbitrary results driven by symbolic inputs): a reply is accepted only if it decodes without trailing bytes, its status is granted / grantedWithMods, the token signature verifies, the token info decodes, the nonce equals the request's and the imprint equals the request's; a rejected reply yields no token; no panic on any stub behaviour.",
-         "Trusted: the stubs' contracts (asn1.Unmarshal, SignedData.Verify, ContentInfo.Bytes return arbitrary values of their types), big.Int 64-bit stand-in, engine, z3. No native replay exists for stubbed harnesses: counterexamples are re-executed concretely in the interpreter. Failover order, legacy Microsoft replies, verification-side time handling, X.509 validity: not yet covered in this revision.",
+ "C10": ("Partial: ParseResponse / SanityCheckToken / unpackTokenInfo with the ASN.1 decoder, CMS signature check and content extraction as nondeterministic stubs: accepted only if decoded without trailing bytes, status granted(WithMods), token signature verifies, token info decodes, nonce and imprint equal the request's; no panic on any stub behaviour. tsClient.Timestamp with the per-URL exchange stubbed: authorities tried in configured order (URLs / MsURLs / named pool), first token wins and nothing is contacted afterwards, all failing => error (never nil,nil), cancelled caller stops the scan.",
+         "Trusted: stub contracts, big.Int 64-bit stand-in, engine, z3. Stubbed harnesses have no native replay: counterexamples are re-executed concretely in the interpreter. Legacy Microsoft reply parsing, verification-side time handling, X.509 validity windows: not covered.",
          "DESIGN.md §4 C10"),
 }
 
